@@ -474,7 +474,10 @@ class Lexer:
             ch = self._current()
 
             if ch == "\\" and self.pos + 1 < self.length:
-                # Escape sequence - include both characters
+                # Escape sequence - include both characters (a line break cannot
+                # be escaped: the literal ends on its line)
+                if self._peek() in "\n\r\u2028\u2029":
+                    raise JSSyntaxError("Unterminated regex literal", line, column)
                 pattern.append(self._advance())
                 pattern.append(self._advance())
             elif ch == "[":
@@ -487,7 +490,7 @@ class Lexer:
                 # End of pattern
                 self._advance()
                 break
-            elif ch == "\n":
+            elif ch in "\n\r\u2028\u2029":
                 raise JSSyntaxError("Unterminated regex literal", line, column)
             else:
                 pattern.append(self._advance())
